@@ -174,7 +174,7 @@ D1 == {-2, -1, 1, 2, 3}
 DG2 == IF Quick THEN { <<a, b>> : a \in {-1, 1, 2}, b \in {1, -2, 3} }
        ELSE { <<a, b>> : a \in D1, b \in D1 }
 DG3 == IF Quick THEN { <<1, 1, 1>>, <<2, -1, 3>>, <<-2, 3, 1>> }
-       ELSE { <<1, 1, 1>>, <<2, -1, 3>>, <<-2, 3, 1>>, <<3, 2, -1>>, <<1, 2, 3>>, <<-1, -1, -1>>, <<2, 2, 2>>, <<1, 3, -2>> }
+       ELSE { <<1, 1, 1>>, <<2, -1, 3>>, <<-2, 3, 1>>, <<3, 2, -1>>, <<-1, -1, -1>> }
 DGs(n) == CASE n = 1 -> { <<a>> : a \in D1 } [] n = 2 -> DG2 [] n = 3 -> DG3
 LOs(n) == CASE n = 1 -> { <<>> } [] n = 2 -> { <<a>> : a \in E } [] n = 3 -> { <<a, b, c>> : a \in EL, b \in EL, c \in EL }
 MkW(n, dg, lo) == CASE n = 1 -> << <<dg[1]>> >>
@@ -223,8 +223,8 @@ Lams == { -3, -2, -1, 0, 1, 2, 3 }
 A2s == { << <<0, -1>>, <<1, 0>> >>, << <<0, -3>>, <<3, 0>> >>, << <<-1, 0>>, <<0, 2>> >>, << <<0, 1>>, <<0, 0>> >>,
          << <<0, 1>>, <<-2, -3>> >>, << <<1, 2>>, <<3, -1>> >>, << <<-2, 1>>, <<1, -2>> >>, << <<0, 0>>, <<0, 0>> >> }
 V2s == { <<RO, RZ>>, <<RZ, RO>>, <<RO, RI(-2)>>, <<RN(3, 2), RI(2)>> }
-RicY == { RO, RI(-1), RI(2), RI(-3), RN(1, 2) }
-RicH == { RN(1, 8), RN(-1, 8), RN(1, 16) }
+RicY == { RO, RI(-1), RI(2), RI(-2), RN(1, 2) }             \* |y0 h| <= 1/8: asymptotic regime of the local error
+RicH == { RN(1, 16), RN(-1, 16), RN(1, 32) }
 
 (* ------------------------------- test vectors --------------------------------------- *)
 VecLdl(P) == LET r == LDL(I2R(P)) IN [op |-> "ldl", n |-> Len(P), P |-> P, L |-> r.L, D |-> r.D]
